@@ -193,4 +193,617 @@ theorem minValid_spec (P : Nat) (l : List Nat) : IsMin P (· ∈ l) (minValid P 
   have := minValid_foldl P l none (fun _ => False) (by intro y hy; exact hy.elim)
   exact IsMin.congr (fun y => by simp) this
 
+/-! ## `propagate_templates` -/
+
+def stMask (tbl : CodeTable) (st : Tab Char) (y : Nat) : Nat :=
+  match st.get y with
+  | some c => tbl.maskC c
+  | none => 0
+
+theorem maskC_lt16 (tbl : CodeTable) (c : Char) : tbl.maskC c < 16 := by
+  unfold CodeTable.maskC
+  split
+  · exact maskOf_lt _
+  · decide
+
+theorem stMask_lt16 (tbl : CodeTable) (st : Tab Char) (y : Nat) : stMask tbl st y < 16 := by
+  unfold stMask
+  split
+  · exact maskC_lt16 _ _
+  · decide
+
+theorem isCode_of_mask {tbl : CodeTable} {c : Char} (h : tbl.maskC c ≠ 0) : tbl.isCode c = true := by
+  unfold CodeTable.maskC at h
+  unfold CodeTable.isCode
+  split at h
+  · rename_i g hg; simp [hg]
+  · exact absurd rfl h
+
+theorem applyTo_st (s : PT) (c : Char) (l : List Nat) (z : Nat) :
+    (applyTo s c l).st.get z = if z ∈ l then some c else s.st.get z := by
+  unfold applyTo
+  induction l generalizing s with
+  | nil => simp
+  | cons a l ih =>
+    simp only [List.foldl_cons, ih, Tab.get_set, List.mem_cons]
+    by_cases h1 : z ∈ l <;> by_cases h2 : z = a <;> simp [h1, h2]
+
+theorem applyTo_done (s : PT) (c : Char) (l : List Nat) (z : Nat) :
+    (applyTo s c l).done.has z = (decide (z ∈ l) || s.done.has z) := by
+  unfold applyTo
+  induction l generalizing s with
+  | nil => simp
+  | cons a l ih =>
+    simp only [List.foldl_cons, ih, Tab.has_set, List.mem_cons]
+    by_cases h1 : z ∈ l <;> by_cases h2 : z = a <;> simp [h1, h2]
+
+/-- running intersection over the equal side -/
+def eqMaskL (tbl : CodeTable) (st : Tab Char) (l : List Nat) (m : Nat) : Nat :=
+  l.foldl (fun m y => m &&& stMask tbl st y) m
+
+/-- running intersection over the complementary side -/
+def wcMaskL (tbl : CodeTable) (st : Tab Char) (l : List Nat) (m : Nat) : Nat :=
+  l.foldl (fun m y => m &&& complMask (stMask tbl st y)) m
+
+theorem eqMaskL_zero (tbl : CodeTable) (st : Tab Char) (l : List Nat) : eqMaskL tbl st l 0 = 0 := by
+  unfold eqMaskL
+  induction l with
+  | nil => rfl
+  | cons a l ih => simpa using ih
+
+theorem wcMaskL_zero (tbl : CodeTable) (st : Tab Char) (l : List Nat) : wcMaskL tbl st l 0 = 0 := by
+  unfold wcMaskL
+  induction l with
+  | nil => rfl
+  | cons a l ih => simpa using ih
+
+theorem eqMaskL_lt16 (tbl : CodeTable) (st : Tab Char) (l : List Nat) {m : Nat} (hm : m < 16) :
+    eqMaskL tbl st l m < 16 := by
+  unfold eqMaskL
+  induction l generalizing m with
+  | nil => simpa using hm
+  | cons a l ih => simp only [List.foldl_cons]; exact ih (and_lt16 _ hm)
+
+theorem hasB_eqMaskL (tbl : CodeTable) (st : Tab Char) (l : List Nat) {m : Nat} (hm : m < 16) (b : Base) :
+    hasB (eqMaskL tbl st l m) b ↔ hasB m b ∧ ∀ y ∈ l, hasB (stMask tbl st y) b := by
+  unfold eqMaskL
+  induction l generalizing m with
+  | nil => simp
+  | cons a l ih =>
+    simp only [List.foldl_cons, List.mem_cons]
+    rw [ih (and_lt16 _ hm), hasB_and hm (stMask_lt16 _ _ _)]
+    constructor
+    · rintro ⟨⟨h1, h2⟩, h3⟩
+      exact ⟨h1, fun y hy => by rcases hy with rfl | hy; exact h2; exact h3 y hy⟩
+    · rintro ⟨h1, h2⟩
+      exact ⟨⟨h1, h2 a (Or.inl rfl)⟩, fun y hy => h2 y (Or.inr hy)⟩
+
+theorem hasB_wcMaskL (tbl : CodeTable) (st : Tab Char) (l : List Nat) {m : Nat} (hm : m < 16) (b : Base) :
+    hasB (wcMaskL tbl st l m) b ↔ hasB m b ∧ ∀ y ∈ l, hasB (stMask tbl st y) b.compl := by
+  unfold wcMaskL
+  induction l generalizing m with
+  | nil => simp
+  | cons a l ih =>
+    simp only [List.foldl_cons, List.mem_cons]
+    rw [ih (and_lt16 _ hm), hasB_and hm (complMask_lt16 _), hasB_compl (stMask_lt16 _ _ _)]
+    constructor
+    · rintro ⟨⟨h1, h2⟩, h3⟩
+      exact ⟨h1, fun y hy => by rcases hy with rfl | hy; exact h2; exact h3 y hy⟩
+    · rintro ⟨h1, h2⟩
+      exact ⟨⟨h1, h2 a (Or.inl rfl)⟩, fun y hy => h2 y (Or.inr hy)⟩
+
+theorem isect_spec {tbl : CodeTable} (hl : tbl.lawful = true) {c d : Char} (hc : tbl.isCode c = true)
+    (hd : tbl.isCode d = true) :
+    (tbl.maskC c &&& tbl.maskC d = 0 ∧ isect tbl c d = .error .overconstrained) ∨
+    (∃ e, isect tbl c d = .ok e ∧ tbl.isCode e = true ∧ tbl.maskC e = tbl.maskC c &&& tbl.maskC d) := by
+  by_cases h0 : tbl.maskC c &&& tbl.maskC d = 0
+  · left
+    refine ⟨h0, ?_⟩
+    unfold isect
+    rw [CodeTable.intersect_empty hl hc hd h0]
+  · right
+    obtain ⟨e, he, hm⟩ := CodeTable.intersect_ok hl hc hd h0
+    refine ⟨e, ?_, isCode_of_mask (hm ▸ h0), hm⟩
+    unfold isect
+    rw [he]
+
+theorem meetEq_spec {tbl : CodeTable} (hl : tbl.lawful = true) (s : PT) (l : List Nat) (c : Char)
+    (hc : tbl.isCode c = true)
+    (hy : ∀ y ∈ l, s.done.has y = false ∧ ∃ cy, s.st.get y = some cy ∧ tbl.isCode cy = true) :
+    (eqMaskL tbl s.st l (tbl.maskC c) = 0 ∧ meetEq tbl s l c = .error .overconstrained) ∨
+    (∃ c', meetEq tbl s l c = .ok c' ∧ tbl.isCode c' = true ∧
+      tbl.maskC c' = eqMaskL tbl s.st l (tbl.maskC c)) := by
+  induction l generalizing c with
+  | nil => right; exact ⟨c, rfl, hc, rfl⟩
+  | cons a l ih =>
+    obtain ⟨hd, cy, hcy, hcode⟩ := hy a (List.mem_cons_self)
+    have hm : stMask tbl s.st a = tbl.maskC cy := by simp [stMask, hcy]
+    rcases isect_spec hl hc hcode with ⟨h0, he⟩ | ⟨e, he, hce, hme⟩
+    · left
+      refine ⟨?_, ?_⟩
+      · show eqMaskL tbl s.st l (tbl.maskC c &&& stMask tbl s.st a) = 0
+        rw [hm, h0, eqMaskL_zero]
+      · simp [meetEq, hd, hcy, he]
+    · have := ih e hce (fun y hy' => hy y (List.mem_cons_of_mem _ hy'))
+      have hstep : meetEq tbl s (a :: l) c = meetEq tbl s l e := by simp [meetEq, hd, hcy, he]
+      have hmask : eqMaskL tbl s.st (a :: l) (tbl.maskC c) = eqMaskL tbl s.st l (tbl.maskC e) := by
+        show eqMaskL tbl s.st l (tbl.maskC c &&& stMask tbl s.st a) = _
+        rw [hm, hme]
+      rw [hstep, hmask]
+      exact this
+
+theorem meetWc_spec {tbl : CodeTable} (hl : tbl.lawful = true) (s : PT) (l : List Nat) (c : Char)
+    (hc : tbl.isCode c = true)
+    (hy : ∀ y ∈ l, s.done.has y = false ∧ ∃ cy, s.st.get y = some cy ∧ tbl.isCode cy = true) :
+    (wcMaskL tbl s.st l (tbl.maskC c) = 0 ∧ meetWc tbl s l c = .error .overconstrained) ∨
+    (∃ c', meetWc tbl s l c = .ok c' ∧ tbl.isCode c' = true ∧
+      tbl.maskC c' = wcMaskL tbl s.st l (tbl.maskC c)) := by
+  induction l generalizing c with
+  | nil => right; exact ⟨c, rfl, hc, rfl⟩
+  | cons a l ih =>
+    obtain ⟨hd, cy, hcy, hcode⟩ := hy a (List.mem_cons_self)
+    obtain ⟨dy, hdy, hdcode⟩ := CodeTable.isCode_compl hl hcode
+    have hm : complMask (stMask tbl s.st a) = tbl.maskC dy := by
+      simp [stMask, hcy, CodeTable.complOf_mask hl hdy]
+    rcases isect_spec hl hc hdcode with ⟨h0, he⟩ | ⟨e, he, hce, hme⟩
+    · left
+      refine ⟨?_, ?_⟩
+      · show wcMaskL tbl s.st l (tbl.maskC c &&& complMask (stMask tbl s.st a)) = 0
+        rw [hm, h0, wcMaskL_zero]
+      · simp [meetWc, hd, hcy, hdy, he]
+    · have := ih e hce (fun y hy' => hy y (List.mem_cons_of_mem _ hy'))
+      have hstep : meetWc tbl s (a :: l) c = meetWc tbl s l e := by simp [meetWc, hd, hcy, hdy, he]
+      have hmask : wcMaskL tbl s.st (a :: l) (tbl.maskC c) = wcMaskL tbl s.st l (tbl.maskC e) := by
+        show wcMaskL tbl s.st l (tbl.maskC c &&& complMask (stMask tbl s.st a)) = _
+        rw [hm, hme]
+      rw [hstep, hmask]
+      exact this
+
+/-- what the loop proofs need of the result of `propagate` and of the templates -/
+structure Ctx (tbl : CodeTable) (eq wc : Adj) (r : Res) (st0 : Tab Char) : Prop where
+  lawful : tbl.lawful = true
+  pre : Pre eq wc
+  inv : OInv eq wc r
+  all : ∀ x ∈ keys eq, r.has x = true
+  codes : ∀ x ∈ keys eq, ∃ ch, st0.get x = some ch ∧ tbl.isCode ch = true
+
+/-- `b` suits every template linked to `x` (complemented at odd parity) -/
+def Common (tbl : CodeTable) (eq wc : Adj) (st0 : Tab Char) (x : Nat) (b : Base) : Prop :=
+  ∀ y p, Reach eq wc x p y → hasB (stMask tbl st0 y) (flipB b p)
+
+theorem xor_assoc' (p q r : Bool) : ((p ^^ q) ^^ r) = (p ^^ (q ^^ r)) := by cases p <;> cases q <;> cases r <;> rfl
+
+theorem Common.shift {tbl : CodeTable} {eq wc : Adj} {st0 : Tab Char} (hp : Pre eq wc) {x z : Nat} {q : Bool}
+    (h : Reach eq wc x q z) (b : Base) : Common tbl eq wc st0 z b ↔ Common tbl eq wc st0 x (flipB b q) := by
+  constructor
+  · intro hc y p hy
+    -- Reach z (q ^^ p) y
+    have h2 : Reach eq wc z (q ^^ p) y := (h.symm hp.eqSymm hp.wcSymm).trans hy
+    have := hc y _ h2
+    rw [flipB_flipB]
+    have e : (q ^^ p) = (q ^^ p) := rfl
+    exact this
+  · intro hc y p hy
+    have h2 : Reach eq wc x (q ^^ p) y := h.trans hy
+    have := hc y _ h2
+    rw [flipB_flipB] at this
+    have e : (q ^^ (q ^^ p)) = p := by cases p <;> cases q <;> rfl
+    rwa [e] at this
+
+/-- invariant of the loop of `propagate_templates` -/
+structure PInv (tbl : CodeTable) (eq wc : Adj) (st0 : Tab Char) (s : PT) : Prop where
+  closed : ∀ y, s.done.has y = true → ∀ p z, Reach eq wc y p z → s.done.has z = true
+  isKey : ∀ y, s.done.has y = true → y ∈ keys eq
+  keep : ∀ y, s.done.has y = false → s.st.get y = st0.get y
+  val : ∀ y, s.done.has y = true → ∃ c, s.st.get y = some c ∧ tbl.isCode c = true ∧
+    ∀ b, hasB (tbl.maskC c) b ↔ Common tbl eq wc st0 y b
+  noself : ∀ y, s.done.has y = true → ¬ Reach eq wc y true y
+
+theorem pinv_init (tbl : CodeTable) (eq wc : Adj) (st0 : Tab Char) : PInv tbl eq wc st0 ⟨st0, Tab.empty⟩ where
+  closed := by intro y h; simp [Tab.has, Tab.get_empty] at h
+  isKey := by intro y h; simp [Tab.has, Tab.get_empty] at h
+  keep := by intro y _; rfl
+  val := by intro y h; simp [Tab.has, Tab.get_empty] at h
+  noself := by intro y h; simp [Tab.has, Tab.get_empty] at h
+
+theorem foldl_congr_mem {β : Type} (f g : β → Nat → β) (l : List Nat) (h : ∀ m, ∀ y ∈ l, f m y = g m y) (m : β) :
+    l.foldl f m = l.foldl g m := by
+  induction l generalizing m with
+  | nil => rfl
+  | cons a l ih =>
+    simp only [List.foldl_cons]
+    rw [h m a List.mem_cons_self]
+    exact ih (fun m y hy => h m y (List.mem_cons_of_mem _ hy)) _
+
+theorem stMask_congr {tbl : CodeTable} {st st' : Tab Char} {y : Nat} (h : st.get y = st'.get y) :
+    stMask tbl st y = stMask tbl st' y := by simp [stMask, h]
+
+/-- one round of the loop of `propagate_templates` -/
+theorem ptStep_spec {tbl : CodeTable} {eq wc : Adj} {r : Res} {st0 : Tab Char} (C : Ctx tbl eq wc r st0)
+    {s : PT} (I : PInv tbl eq wc st0 s) {x : Nat} {letter : Char} (hx : x ∈ keys eq)
+    (hletter : st0.get x = some letter) :
+    (∃ s', ptStep tbl r s (x, letter) = .ok s' ∧ PInv tbl eq wc st0 s' ∧ s'.done.has x = true ∧
+        ∀ z, s.done.has z = true → s'.done.has z = true) ∨
+    (ptStep tbl r s (x, letter) = .error .overconstrained ∧
+        (Reach eq wc x true x ∨ ∀ b, ¬ Common tbl eq wc st0 x b)) := by
+  have hl := C.lawful
+  have hE := C.pre.eqSymm
+  have hW := C.pre.wcSymm
+  have kc := C.pre.keyClosed
+  by_cases hdx : s.done.has x = true
+  · left
+    exact ⟨s, by simp [ptStep, hdx], I, hdx, fun _ h => h⟩
+  · have hdx' : s.done.has x = false := by simpa using hdx
+    obtain ⟨⟨E, W⟩, hg⟩ := Option.isSome_iff_exists.1 (by rw [← Res.has_eq]; exact C.all x hx)
+    obtain ⟨hEx, hWx⟩ := C.inv.exact x E W hg
+    have hxE : x ∈ E := (hEx x).2 Reach.refl
+    have hlcode : tbl.isCode letter = true := by
+      obtain ⟨lc, hlc, h⟩ := C.codes x hx
+      rw [hletter] at hlc
+      cases hlc
+      exact h
+    by_cases hself : x ∈ W
+    · right
+      refine ⟨?_, Or.inl ((hWx x).1 hself)⟩
+      simp [ptStep, hdx', hg, hself]
+    · have hnself : ¬ Reach eq wc x true x := fun h => hself ((hWx x).2 h)
+      -- members of the class are keys, not done, and still carry their original template
+      have hmem : ∀ y p, Reach eq wc x p y → s.done.has y = false ∧
+          ∃ cy, s.st.get y = some cy ∧ tbl.isCode cy = true := by
+        intro y p hy
+        have hnd : s.done.has y = false := by
+          cases hd : s.done.has y with
+          | false => rfl
+          | true => exact absurd (I.closed y hd p x (hy.symm hE hW)) hdx
+        obtain ⟨cy, h1, h2⟩ := C.codes y (hy.mem_keys kc hx)
+        exact ⟨hnd, cy, by rw [I.keep y hnd]; exact h1, h2⟩
+      have hmE : ∀ y ∈ E, s.done.has y = false ∧ ∃ cy, s.st.get y = some cy ∧ tbl.isCode cy = true :=
+        fun y hy => hmem y false ((hEx y).1 hy)
+      have hmW : ∀ y ∈ W, s.done.has y = false ∧ ∃ cy, s.st.get y = some cy ∧ tbl.isCode cy = true :=
+        fun y hy => hmem y true ((hWx y).1 hy)
+      have hsE : ∀ m, eqMaskL tbl s.st E m = eqMaskL tbl st0 E m := fun m =>
+        foldl_congr_mem _ _ E (fun m y hy => by rw [stMask_congr (I.keep y (hmE y hy).1)]) m
+      have hsW : ∀ m, wcMaskL tbl s.st W m = wcMaskL tbl st0 W m := fun m =>
+        foldl_congr_mem _ _ W (fun m y hy => by rw [stMask_congr (I.keep y (hmW y hy).1)]) m
+      have hxm : stMask tbl st0 x = tbl.maskC letter := by simp [stMask, hletter]
+      -- the bits of the two running intersections
+      have bitsE : ∀ b, hasB (eqMaskL tbl st0 E (tbl.maskC letter)) b ↔
+          ∀ y, Reach eq wc x false y → hasB (stMask tbl st0 y) b := by
+        intro b
+        rw [hasB_eqMaskL _ _ _ (maskC_lt16 _ _)]
+        constructor
+        · rintro ⟨_, h⟩ y hy; exact h y ((hEx y).2 hy)
+        · intro h
+          exact ⟨hxm ▸ h x Reach.refl, fun y hy => h y ((hEx y).1 hy)⟩
+      have bitsW : ∀ b m, m < 16 → (hasB (wcMaskL tbl st0 W m) b ↔
+          hasB m b ∧ ∀ y, Reach eq wc x true y → hasB (stMask tbl st0 y) b.compl) := by
+        intro b m hm
+        rw [hasB_wcMaskL _ _ _ hm]
+        constructor
+        · rintro ⟨h0, h⟩; exact ⟨h0, fun y hy => h y ((hWx y).2 hy)⟩
+        · rintro ⟨h0, h⟩; exact ⟨h0, fun y hy => h y ((hWx y).1 hy)⟩
+      have common_iff : ∀ b, Common tbl eq wc st0 x b ↔
+          (∀ y, Reach eq wc x false y → hasB (stMask tbl st0 y) b) ∧
+          (∀ y, Reach eq wc x true y → hasB (stMask tbl st0 y) b.compl) := by
+        intro b
+        constructor
+        · intro h
+          exact ⟨fun y hy => by simpa [flipB] using h y false hy, fun y hy => by simpa [flipB] using h y true hy⟩
+        · rintro ⟨h1, h2⟩ y p hy
+          cases p
+          · simpa [flipB] using h1 y hy
+          · simpa [flipB] using h2 y hy
+      rcases meetEq_spec hl s E letter hlcode hmE with ⟨h0, he⟩ | ⟨c1, he1, hc1, hm1⟩
+      · right
+        refine ⟨by simp [ptStep, hdx', hg, hself, he], Or.inr (fun b hb => ?_)⟩
+        rw [hsE] at h0
+        have : hasB (eqMaskL tbl st0 E (tbl.maskC letter)) b := (bitsE b).2 ((common_iff b).1 hb).1
+        rw [h0] at this
+        exact this (by simp)
+      · rw [hsE] at hm1
+        rcases meetWc_spec hl s W c1 hc1 hmW with ⟨h0, he⟩ | ⟨c, he2, hc, hm2⟩
+        · right
+          refine ⟨by simp [ptStep, hdx', hg, hself, he1, he], Or.inr (fun b hb => ?_)⟩
+          rw [hsW, hm1] at h0
+          have h16 := eqMaskL_lt16 tbl st0 E (maskC_lt16 tbl letter)
+          have : hasB (wcMaskL tbl st0 W (eqMaskL tbl st0 E (tbl.maskC letter))) b :=
+            (bitsW b _ h16).2 ⟨(bitsE b).2 ((common_iff b).1 hb).1, ((common_iff b).1 hb).2⟩
+          rw [h0] at this
+          exact this (by simp)
+        · rw [hsW, hm1] at hm2
+          have h16 := eqMaskL_lt16 tbl st0 E (maskC_lt16 tbl letter)
+          have hcbits : ∀ b, hasB (tbl.maskC c) b ↔ Common tbl eq wc st0 x b := by
+            intro b
+            rw [hm2, bitsW b _ h16, bitsE b, common_iff b]
+          obtain ⟨cc, hcc, hcccode⟩ := CodeTable.isCode_compl hl hc
+          have hccm := CodeTable.complOf_mask hl hcc
+          -- the new state, uniformly in whether `W` is empty
+          have hres : ptStep tbl r s (x, letter) = .ok (applyTo (applyTo s c E) cc W) := by
+            cases W with
+            | nil => simp [ptStep, hdx', hg, he1, he2, applyTo]
+            | cons w W' => simp [ptStep, hdx', hg, hself, he1, he2, hcc]
+          left
+          refine ⟨_, hres, ?_, ?_, ?_⟩
+          · have dn : ∀ z, (applyTo (applyTo s c E) cc W).done.has z = true ↔
+                z ∈ W ∨ z ∈ E ∨ s.done.has z = true := by
+              intro z; rw [applyTo_done, applyTo_done]; simp
+            have inCls : ∀ z, (z ∈ W ∨ z ∈ E) ↔ ∃ q, Reach eq wc x q z := by
+              intro z
+              constructor
+              · rintro (h | h)
+                · exact ⟨true, (hWx z).1 h⟩
+                · exact ⟨false, (hEx z).1 h⟩
+              · rintro ⟨q, hq⟩
+                cases q
+                · exact Or.inr ((hEx z).2 hq)
+                · exact Or.inl ((hWx z).2 hq)
+            constructor
+            · intro y hy p z hyz
+              rw [dn] at hy ⊢
+              rw [← or_assoc, inCls] at hy ⊢
+              rcases hy with ⟨q, hq⟩ | hy
+              · exact Or.inl ⟨_, hq.trans hyz⟩
+              · exact Or.inr (I.closed y hy p z hyz)
+            · intro y hy
+              rw [dn, ← or_assoc, inCls] at hy
+              rcases hy with ⟨q, hq⟩ | hy
+              · exact hq.mem_keys kc hx
+              · exact I.isKey y hy
+            · intro y hy
+              have hy' : ¬ (y ∈ W ∨ y ∈ E ∨ s.done.has y = true) := by
+                rw [← dn]; simp [hy]
+              have h1 : y ∉ W := fun h => hy' (Or.inl h)
+              have h2 : y ∉ E := fun h => hy' (Or.inr (Or.inl h))
+              have h3 : s.done.has y = false := by
+                cases hd : s.done.has y with
+                | false => rfl
+                | true => exact absurd (Or.inr (Or.inr hd)) hy'
+              rw [applyTo_st, applyTo_st]
+              simp [h1, h2, I.keep y h3]
+            · intro y hy
+              rw [dn] at hy
+              rw [applyTo_st, applyTo_st]
+              by_cases h1 : y ∈ W
+              · have hr := (hWx y).1 h1
+                refine ⟨cc, by simp [h1], hcccode, fun b => ?_⟩
+                rw [hccm, hasB_compl (maskC_lt16 _ _), hcbits, Common.shift C.pre hr b]
+                simp [flipB]
+              · by_cases h2 : y ∈ E
+                · have hr := (hEx y).1 h2
+                  refine ⟨c, by simp [h1, h2], hc, fun b => ?_⟩
+                  rw [hcbits, Common.shift C.pre hr b]
+                  simp [flipB]
+                · have h3 : s.done.has y = true := by
+                    rcases hy with h | h | h
+                    · exact absurd h h1
+                    · exact absurd h h2
+                    · exact h
+                  obtain ⟨c', hc', hcode', hb'⟩ := I.val y h3
+                  exact ⟨c', by simp [h1, h2, hc'], hcode', hb'⟩
+            · intro y hy hyy
+              rw [dn, ← or_assoc, inCls] at hy
+              rcases hy with ⟨q, hq⟩ | hy
+              · have := (hq.trans hyy).trans (hq.symm hE hW)
+                have e : ((q ^^ true) ^^ q) = true := by cases q <;> rfl
+                rw [e] at this
+                exact hnself this
+              · exact I.noself y hy hyy
+          · rw [applyTo_done, applyTo_done]; simp [hxE]
+          · intro z hz
+            rw [applyTo_done, applyTo_done]; simp [hz]
+
+theorem ptLoop_spec {tbl : CodeTable} {eq wc : Adj} {r : Res} {st0 : Tab Char} (C : Ctx tbl eq wc r st0)
+    (items : List (Nat × Char)) (hit : ∀ it ∈ items, it.1 ∈ keys eq ∧ st0.get it.1 = some it.2)
+    {s : PT} (I : PInv tbl eq wc st0 s) :
+    (∃ s', ptLoop tbl r items s = .ok s' ∧ PInv tbl eq wc st0 s' ∧ (∀ it ∈ items, s'.done.has it.1 = true) ∧
+        ∀ z, s.done.has z = true → s'.done.has z = true) ∨
+    (ptLoop tbl r items s = .error .overconstrained ∧
+        ∃ x ∈ keys eq, Reach eq wc x true x ∨ ∀ b, ¬ Common tbl eq wc st0 x b) := by
+  induction items generalizing s with
+  | nil => left; exact ⟨s, rfl, I, by simp, fun _ h => h⟩
+  | cons it rest ih =>
+    obtain ⟨x, letter⟩ := it
+    obtain ⟨hx, hletter⟩ := hit (x, letter) List.mem_cons_self
+    rcases ptStep_spec C I hx hletter with ⟨s1, e1, I1, hx1, m1⟩ | ⟨e1, hbad⟩
+    · rcases ih (fun it h => hit it (List.mem_cons_of_mem _ h)) I1 with ⟨s2, e2, I2, h2, m2⟩ | ⟨e2, hbad⟩
+      · left
+        refine ⟨s2, by simp [ptLoop, e1, e2], I2, ?_, fun z hz => m2 z (m1 z hz)⟩
+        intro it hit'
+        rcases List.mem_cons.1 hit' with rfl | h
+        · exact m2 _ hx1
+        · exact h2 it h
+      · right
+        exact ⟨by simp [ptLoop, e1, e2], hbad⟩
+    · right
+      exact ⟨by simp [ptLoop, e1], x, hx, hbad⟩
+
+theorem lookup_isSome_iff {β : Type} (l : List (Nat × β)) (x : Nat) :
+    (l.lookup x).isSome = true ↔ x ∈ l.map (·.1) := by
+  induction l with
+  | nil => simp
+  | cons a l ih =>
+    obtain ⟨k, v⟩ := a
+    simp only [List.lookup_cons, List.map_cons, List.mem_cons]
+    by_cases h : x = k
+    · subst h; simp
+    · have : (x == k) = false := by simpa using h
+      simp [this, ih, h]
+
+theorem Res.has_iff_mem (r : Res) (x : Nat) : r.has x = true ↔ x ∈ r.map (·.1) := lookup_isSome_iff r x
+
+/-- what `propagate_templates` returns -/
+theorem propagateTemplates_spec {tbl : CodeTable} {eq wc : Adj} {r : Res} {st0 : Tab Char}
+    (C : Ctx tbl eq wc r st0) :
+    (∃ st', propagateTemplates tbl (keys eq) r st0 = .ok st' ∧
+        (∀ y ∈ keys eq, ¬ Reach eq wc y true y ∧ ∃ c, st'.get y = some c ∧ tbl.isCode c = true ∧
+          ∀ b, hasB (tbl.maskC c) b ↔ Common tbl eq wc st0 y b) ∧
+        (∀ y, y ∉ keys eq → st'.get y = st0.get y)) ∨
+    (propagateTemplates tbl (keys eq) r st0 = .error .overconstrained ∧
+        ∃ x ∈ keys eq, Reach eq wc x true x ∨ ∀ b, ¬ Common tbl eq wc st0 x b) := by
+  have hsk : sameKeys (keys eq) (r.map (·.1)) = true := by
+    unfold sameKeys
+    simp only [Bool.and_eq_true, List.all_eq_true, List.contains_iff_mem]
+    exact ⟨fun x hx => (Res.has_iff_mem r x).1 (C.all x hx), fun x hx => C.inv.isKey x ((Res.has_iff_mem r x).2 hx)⟩
+  let items := (keys eq).filterMap (fun k => (st0.get k).map (fun c => (k, c)))
+  have hit : ∀ it ∈ items, it.1 ∈ keys eq ∧ st0.get it.1 = some it.2 := by
+    intro it h
+    obtain ⟨k, hk, he⟩ := List.mem_filterMap.1 h
+    cases hs : st0.get k with
+    | none => simp [hs] at he
+    | some c => simp [hs] at he; subst he; exact ⟨hk, hs⟩
+  have hall : ∀ x ∈ keys eq, ∃ it ∈ items, it.1 = x := by
+    intro x hx
+    obtain ⟨ch, hch, _⟩ := C.codes x hx
+    exact ⟨(x, ch), List.mem_filterMap.2 ⟨x, hx, by simp [hch]⟩, rfl⟩
+  rcases ptLoop_spec C items hit (pinv_init tbl eq wc st0) with ⟨s', e, I, hd, _⟩ | ⟨e, hbad⟩
+  · left
+    refine ⟨s'.st, by simp only [propagateTemplates, hsk]; simp [items] at e; simp [e], ?_, ?_⟩
+    · intro y hy
+      obtain ⟨it, hit', rfl⟩ := hall y hy
+      have := hd it hit'
+      exact ⟨I.noself _ this, I.val _ this⟩
+    · intro y hy
+      have : s'.done.has y = false := by
+        cases h : s'.done.has y with
+        | false => rfl
+        | true => exact absurd (I.isKey y h) hy
+      exact I.keep y this
+  · right
+    refine ⟨by simp only [propagateTemplates, hsk]; simp [items] at e; simp [e], hbad⟩
+
+/-! ## `get_reps` -/
+
+theorem foldl_set_get {α} (l : List Nat) (v : α) (t : Tab α) (z : Nat) :
+    (l.foldl (fun t y => t.set y v) t).get z = if z ∈ l then some v else t.get z := by
+  induction l generalizing t with
+  | nil => simp
+  | cons a l ih =>
+    simp only [List.foldl_cons, ih, Tab.get_set, List.mem_cons]
+    by_cases h1 : z ∈ l <;> by_cases h2 : z = a <;> simp [h1, h2]
+
+theorem repGet_set (t : Tab (Option Nat)) (k j : Nat) (v : Option Nat) :
+    repGet (t.set k v) j = if j = k then v else repGet t j := by
+  unfold repGet
+  rw [Tab.get_set]
+  by_cases h : j = k <;> simp [h]
+
+/-- the loop over `eq[x]` of `get_reps` in closed form -/
+theorem repLoopE (x : Nat) (mE mW : Option Nat) (E : List Nat) (s : Reps)
+    (h1 : repGet s.eqRep x = mE) (h2 : repGet s.wcRep x = mW) :
+    E.foldl (fun (s : Reps) y =>
+        let e1 := s.eqRep.set y (repGet s.eqRep x)
+        ⟨e1, s.wcRep.set y (repGet s.wcRep x)⟩) s
+      = ⟨E.foldl (fun t y => t.set y mE) s.eqRep, E.foldl (fun t y => t.set y mW) s.wcRep⟩ := by
+  induction E generalizing s with
+  | nil => rfl
+  | cons a E ih =>
+    simp only [List.foldl_cons]
+    rw [ih]
+    · simp only [h1, h2]
+    · simp only [repGet_set, h1]; split <;> rfl
+    · simp only [repGet_set, h2]; split <;> rfl
+
+/-- the loop over `wc[x]` of `get_reps` in closed form (when `x` is not its own partner) -/
+theorem repLoopW (x : Nat) (mE mW : Option Nat) (W : List Nat) (hx : x ∉ W) (s : Reps)
+    (h1 : repGet s.eqRep x = mE) (h2 : repGet s.wcRep x = mW) :
+    W.foldl (fun (s : Reps) y =>
+        let e1 := s.eqRep.set y (repGet s.wcRep x)
+        ⟨e1, s.wcRep.set y (repGet e1 x)⟩) s
+      = ⟨W.foldl (fun t y => t.set y mW) s.eqRep, W.foldl (fun t y => t.set y mE) s.wcRep⟩ := by
+  induction W generalizing s with
+  | nil => rfl
+  | cons a W ih =>
+    have hxa : x ≠ a := fun e => hx (e ▸ List.mem_cons_self)
+    have hxW : x ∉ W := fun h => hx (List.mem_cons_of_mem _ h)
+    simp only [List.foldl_cons]
+    rw [ih hxW]
+    · simp only [h2, repGet_set, hxa, if_false, h1]
+    · simp only [repGet_set, hxa, if_false, h1]
+    · simp only [repGet_set, hxa, if_false, h2]
+
+/-- `repStep` in closed form -/
+theorem repStep_get (P : Nat) (s : Reps) (x : Nat) (E W : List Nat) (hx : x ∉ W) (z : Nat) :
+    (repStep P s (x, E, W)).eqRep.get z =
+      (if z ∈ W then some (minValid P W) else if z ∈ E then some (minValid P E)
+       else if z = x then some (minValid P E) else s.eqRep.get z) ∧
+    (repStep P s (x, E, W)).wcRep.get z =
+      (if z ∈ W then some (minValid P E) else if z ∈ E then some (minValid P W)
+       else if z = x then some (minValid P W) else s.wcRep.get z) := by
+  unfold repStep
+  simp only
+  rw [repLoopE x (minValid P E) (minValid P W) E _ (by simp [repGet_set]) (by simp [repGet_set])]
+  rw [repLoopW x (minValid P E) (minValid P W) W hx]
+  · simp only [foldl_set_get, Tab.get_set]
+    exact ⟨trivial, trivial⟩
+  · simp only [repGet, foldl_set_get, Tab.get_set]
+    by_cases h : x ∈ E <;> simp [h]
+  · simp only [repGet, foldl_set_get, Tab.get_set]
+    by_cases h : x ∈ E <;> simp [h]
+
+/-- invariant of the loop of `get_reps`: every value already written is the right one -/
+structure RInv (P : Nat) (eq wc : Adj) (s : Reps) : Prop where
+  eqv : ∀ y v, s.eqRep.get y = some v → y ∈ keys eq ∧ IsMin P (Reach eq wc y false) v
+  wcv : ∀ y v, s.wcRep.get y = some v → y ∈ keys eq ∧ IsMin P (Reach eq wc y true) v
+
+theorem reach_shift_iff {eq wc : Adj} (hp : Pre eq wc) {x y : Nat} {q : Bool} (h : Reach eq wc x q y) (p : Bool) (z : Nat) :
+    Reach eq wc y p z ↔ Reach eq wc x (q ^^ p) z := Reach.shift hp.eqSymm hp.wcSymm h p z
+
+theorem repStep_spec {P : Nat} {eq wc : Adj} (hp : Pre eq wc) {s : Reps} (I : RInv P eq wc s)
+    {x : Nat} {E W : List Nat} (hx : x ∈ keys eq)
+    (hE : ∀ y, y ∈ E ↔ Reach eq wc x false y) (hW : ∀ y, y ∈ W ↔ Reach eq wc x true y)
+    (hns : ¬ Reach eq wc x true x) :
+    RInv P eq wc (repStep P s (x, E, W)) ∧
+    (repStep P s (x, E, W)).eqRep.get x ≠ none ∧ (repStep P s (x, E, W)).wcRep.get x ≠ none ∧
+    (∀ z, s.eqRep.get z ≠ none → (repStep P s (x, E, W)).eqRep.get z ≠ none) ∧
+    (∀ z, s.wcRep.get z ≠ none → (repStep P s (x, E, W)).wcRep.get z ≠ none) := by
+  have hxW : x ∉ W := fun h => hns ((hW x).1 h)
+  have kc := hp.keyClosed
+  have mE : IsMin P (Reach eq wc x false) (minValid P E) := IsMin.congr hE (minValid_spec P E)
+  have mW : IsMin P (Reach eq wc x true) (minValid P W) := IsMin.congr hW (minValid_spec P W)
+  have shiftE : ∀ y, y ∈ E → ∀ p z, Reach eq wc y p z ↔ Reach eq wc x p z := by
+    intro y hy p z
+    rw [reach_shift_iff hp ((hE y).1 hy)]; simp
+  have shiftW : ∀ y, y ∈ W → ∀ p z, Reach eq wc y p z ↔ Reach eq wc x (!p) z := by
+    intro y hy p z
+    rw [reach_shift_iff hp ((hW y).1 hy)]; cases p <;> simp
+  refine ⟨⟨?_, ?_⟩, ?_, ?_, ?_, ?_⟩
+  · intro y v hv
+    rw [(repStep_get P s x E W hxW y).1] at hv
+    split at hv
+    · rename_i h
+      cases hv
+      exact ⟨((hW y).1 h).mem_keys kc hx, IsMin.congr (fun z => by rw [shiftW y h]; simp) mW⟩
+    · split at hv
+      · rename_i h
+        cases hv
+        exact ⟨((hE y).1 h).mem_keys kc hx, IsMin.congr (fun z => by rw [shiftE y h]) mE⟩
+      · split at hv
+        · rename_i h
+          cases hv; subst h
+          exact ⟨hx, mE⟩
+        · exact I.eqv y v hv
+  · intro y v hv
+    rw [(repStep_get P s x E W hxW y).2] at hv
+    split at hv
+    · rename_i h
+      cases hv
+      exact ⟨((hW y).1 h).mem_keys kc hx, IsMin.congr (fun z => by rw [shiftW y h]; simp) mE⟩
+    · split at hv
+      · rename_i h
+        cases hv
+        exact ⟨((hE y).1 h).mem_keys kc hx, IsMin.congr (fun z => by rw [shiftE y h]) mW⟩
+      · split at hv
+        · rename_i h
+          cases hv; subst h
+          exact ⟨hx, mW⟩
+        · exact I.wcv y v hv
+  · rw [(repStep_get P s x E W hxW x).1]; simp [hxW]
+  · rw [(repStep_get P s x E W hxW x).2]; simp [hxW]
+  · intro z hz
+    rw [(repStep_get P s x E W hxW z).1]
+    split; simp; split; simp; split; simp; exact hz
+  · intro z hz
+    rw [(repStep_get P s x E W hxW z).2]
+    split; simp; split; simp; split; simp; exact hz
+
 end Pepper.ConstraintGen
